@@ -853,6 +853,21 @@ class Phase(Angle):
                 corr = Phase.from_angles(*divisor_parts, factor=fd, out=corr)
                 remainder = np.subtract(this, corr, out=corr)
 
+            # A remainder within half an ulp of zero or of the divisor rounds onto
+            # it as a single double: settle those with both parts of the phases.
+            sign = np.sign((remainder["int"] + remainder["frac"]).value)
+            dsign = np.sign(u.Quantity(divisor, copy=COPY_IF_NEEDED).value)
+            beyond = np.where(
+                dsign > 0,
+                np.greater_equal(remainder, inputs[1]),
+                np.less_equal(remainder, inputs[1]),
+            )
+            fdx = np.where(sign * dsign < 0, -1.0, np.where(beyond & (dsign != 0), 1.0, 0.0))
+            if np.count_nonzero(fdx):
+                fd += fdx
+                corr = Phase.from_angles(*divisor_parts, factor=fd, out=corr)
+                remainder = np.subtract(this, corr, out=corr)
+
             if function is np.floor_divide:
                 return fd
             elif function is np.remainder:
